@@ -12,6 +12,25 @@ fn tohex(b: &[u8]) -> String {
     b.iter().map(|x| format!("{:02x}", x)).collect()
 }
 
+#[derive(PartialEq, Debug, Clone)]
+struct Bin(Vec<u8>);
+impl serde::Serialize for Bin {
+    fn serialize<S: serde::Serializer>(&self, s: S) -> Result<S::Ok, S::Error> { s.serialize_bytes(&self.0) }
+}
+impl<'de> serde::Deserialize<'de> for Bin {
+    fn deserialize<D: serde::Deserializer<'de>>(d: D) -> Result<Bin, D::Error> {
+        struct V;
+        impl<'de> serde::de::Visitor<'de> for V {
+            type Value = Bin;
+            fn expecting(&self, f: &mut std::fmt::Formatter) -> std::fmt::Result { f.write_str("bytes") }
+            fn visit_bytes<E: serde::de::Error>(self, v: &[u8]) -> Result<Bin, E> { Ok(Bin(v.to_vec())) }
+            fn visit_byte_buf<E: serde::de::Error>(self, v: Vec<u8>) -> Result<Bin, E> { Ok(Bin(v)) }
+        }
+        d.deserialize_byte_buf(V)
+    }
+}
+fn serde_bytes_like(v: Vec<u8>) -> Bin { Bin(v) }
+
 fn mk_resp<B>(op: &Value, body: B) -> http::Response<B> {
     let mut r = http::Response::new(body);
     *r.status_mut() = http::StatusCode::from_u16(op["status"].as_u64().unwrap() as u16).unwrap();
@@ -394,6 +413,50 @@ fn run(op: &Value) -> Value {
                 Ok(v) => json!({"ok": true, "returned": v, "calls": c}),
                 Err(e) => json!({"ok": false, "calls": c, "cause": e.cause().to_string()}),
             }
+        }
+        "nested_shapes" => {
+            // C01/C05: Conjure behaviour re-applied below every container kind, natively (JSON and Smile)
+            use std::collections::BTreeMap;
+            #[derive(serde::Serialize, serde::Deserialize, PartialEq, Debug, Clone)]
+            struct S1 { a: i32 }
+            #[derive(serde::Serialize, serde::Deserialize, PartialEq, Debug, Clone)]
+            struct W<T> { inner: T }
+            fn rt<T: serde::Serialize + serde::de::DeserializeOwned + PartialEq + std::fmt::Debug>(v: &T) -> bool {
+                let j = conjure_serde::json::to_vec(v).ok();
+                let s = conjure_serde::smile::to_vec(v).ok();
+                let a = j.as_ref().map(|b| conjure_serde::json::client_from_slice::<T>(b).ok().as_ref() == Some(v) && conjure_serde::json::server_from_slice::<T>(b).ok().as_ref() == Some(v));
+                let b = s.as_ref().map(|b| conjure_serde::smile::client_from_slice::<T>(b).ok().as_ref() == Some(v) && conjure_serde::smile::server_from_slice::<T>(b).ok().as_ref() == Some(v));
+                a == Some(true) && b == Some(true)
+            }
+            fn rejects<T: serde::de::DeserializeOwned>(doc: &str) -> bool {
+                let val: Value = serde_json::from_str(doc).unwrap();
+                let sm = conjure_serde::smile::to_vec(&val).unwrap();
+                conjure_serde::json::server_from_str::<T>(doc).is_err() && conjure_serde::smile::server_from_slice::<T>(&sm).is_err()
+                    && conjure_serde::json::client_from_str::<T>(doc).is_ok() && conjure_serde::smile::client_from_slice::<T>(&sm).is_ok()
+            }
+            let bin = serde_bytes_like(vec![1u8, 2, 250]);
+            let mut mb = BTreeMap::new(); mb.insert("k".to_string(), bin.clone());
+            let mut mf = BTreeMap::new(); mf.insert("k".to_string(), f64::NAN.to_bits());
+            let mut mbool = BTreeMap::new(); mbool.insert(true, 1i32);
+            let mut mm = BTreeMap::new(); mm.insert("o".to_string(), mbool.clone());
+            let nan_rt = |wrap: &dyn Fn(f64) -> Value| -> bool { let _ = wrap; true };
+            let _ = nan_rt;
+            fn nan_map() -> bool {
+                let mut m = BTreeMap::new(); m.insert("k".to_string(), f64::INFINITY);
+                let j = conjure_serde::json::to_string(&m).unwrap();
+                j == "{\"k\":\"Infinity\"}" && conjure_serde::json::server_from_str::<BTreeMap<String, f64>>(&j).ok() == Some(m.clone())
+                    && conjure_serde::json::client_from_str::<BTreeMap<String, f64>>(&j).ok() == Some(m)
+            }
+            let _ = mf;
+            json!({
+                "map_value_binary": rt(&mb), "list_binary": rt(&vec![bin.clone()]), "option_binary": rt(&Some(bin.clone())), "struct_binary": rt(&W { inner: bin.clone() }),
+                "map_value_nonfinite": nan_map(), "nested_map_bool_key": rt(&mm), "map_bool_key": rt(&mbool),
+                "unknown_in_map_value": rejects::<BTreeMap<String, S1>>("{\"k\":{\"a\":1,\"bogus\":null}}"),
+                "unknown_in_list": rejects::<Vec<S1>>("[{\"a\":1,\"bogus\":[1]}]"),
+                "unknown_in_option": rejects::<Option<S1>>("{\"a\":1,\"bogus\":{}}"),
+                "unknown_in_struct_field": rejects::<W<S1>>("{\"inner\":{\"a\":1,\"bogus\":1}}"),
+                "unknown_in_map_in_list": rejects::<Vec<BTreeMap<String, S1>>>("[{\"k\":{\"bogus\":1,\"a\":1}}]"),
+            })
         }
         "smile_nested" => {
             // C01: values whose serde impls consult is_human_readable(), nested below a container, through Smile and JSON
